@@ -969,7 +969,104 @@ def _check_bes(case, ctx, ev, b, model, call, out, samples, log, is_first):
     return _flowing(S) >= 2
 
 
+# ----------------------------------------------------------------------------------------------- through the scene graph
+# The models are normally reached through BeamMaterial.emission_function (ray tracing): it turns a point and a viewing direction
+# given in beam space into the (beam point, plasma point, beam direction, observation direction) of the statement.  Relation:
+# with beam and plasma placed by generated transforms (plasma rotated, optionally below an intermediate node), the material must
+# give exactly what the model gives when handed the plasma-space quantities computed with my own matrices.
+def _rot(axis, a):
+    c, s_ = math.cos(math.radians(a)), math.sin(math.radians(a))
+    m = np.eye(4)
+    i, j = {"x": (1, 2), "y": (2, 0), "z": (0, 1)}[axis]
+    m[i, i], m[i, j], m[j, i], m[j, j] = c, -s_, s_, c
+    return m
+
+
+def _own_matrix(t, r):
+    m = np.eye(4)
+    m[:3, 3] = t
+    return m @ _rot("z", r[2]) @ _rot("y", r[1]) @ _rot("x", r[0])
+
+
+def _ray_matrix(t, r):
+    from raysect.core import translate, rotate_x, rotate_y, rotate_z
+    return translate(*t) * rotate_z(r[2]) * rotate_y(r[1]) * rotate_x(r[0])
+
+
+def strategy_scene():
+    @st.composite
+    def s(draw):
+        case = draw(strategy_cx() if draw(st.booleans()) else strategy_bes())
+        case["scene_kind"] = "cx" if "recv" in case else "bes"
+        case.pop("other", None), case.pop("interf", None)
+        case["wire"] = "beam.models"
+        ang = st.sampled_from([0.0, 30.0, -75.0, 90.0, 180.0, 17.5])
+        tr = st.floats(-1.0, 1.0)
+        case["scene"] = {"pt": [draw(tr) for _ in range(3)], "pr": [draw(ang) for _ in range(3)],
+                         "bt": [draw(tr) for _ in range(3)], "br": [draw(ang) for _ in range(3)],
+                         "node": draw(st.one_of(st.none(), st.tuples(st.lists(tr, min_size=3, max_size=3), st.lists(ang, min_size=3, max_size=3)))),
+                         "dir": [draw(st.floats(-1.0, 1.0)) for _ in range(3)]}
+        return case
+    return s()
+
+
+def run_scene(case, ctx):
+    from raysect.optical import World
+    from raysect.core import Node
+    from cherab.core.beam.material import BeamMaterial
+    kind = case["scene_kind"]
+    A = Subject(kind, case, ctx, "A")
+    b, model = A.b, A.model
+    sc = case["scene"]
+    world = World()
+    with ctx.cut("scene"):
+        pparent = Node(parent=world, transform=_ray_matrix(*sc["node"])) if sc["node"] else world
+        b.plasma.parent = pparent
+        b.plasma.transform = _ray_matrix(sc["pt"], sc["pr"])
+        b.beam.parent = world
+        b.beam.transform = _ray_matrix(sc["bt"], sc["br"])
+        if model not in list(b.beam.models):
+            b.beam.models = [model]
+        prims = [c for c in b.beam.children if isinstance(getattr(c, "material", None), BeamMaterial)]
+    ctx.check(len(prims) == 1, "scene-material", "beam has %d primitives carrying a BeamMaterial" % len(prims))
+    prim = prims[0]
+    p2w = (_own_matrix(*sc["node"]) if sc["node"] else np.eye(4)) @ _own_matrix(sc["pt"], sc["pr"])
+    b2p = np.linalg.inv(p2w) @ _own_matrix(sc["bt"], sc["br"])
+    ev = A.evs[0]
+    _, wl = A.line_of(ev)
+    at = ev["at"]
+    bp = np.array(list(at["bp"]) + [1.0])
+    d = list(sc["dir"])
+    if math.sqrt(sum(x * x for x in d)) < 1e-3:
+        d = [0.3, -0.4, 0.5]
+    pp = b2p @ bp
+    with ctx.cut("Beam.direction"):
+        bd = b.beam.direction(*at["bp"])
+    bd_p = b2p @ np.array([bd.x, bd.y, bd.z, 0.0])
+    ob_p = b2p @ np.array(d + [0.0])
+    win = case["win"]
+
+    def spectrum():
+        return Spectrum(wl * (1 - win["half"]), wl * (1 + win["half"]), at.get("bins", win["bins"]))
+    with ctx.cut("emission"):
+        want = np.array(model.emission(Point3D(*at["bp"]), Point3D(*pp[:3]), Vector3D(*bd_p[:3]), Vector3D(*ob_p[:3]), spectrum()).samples)
+    with ctx.cut("BeamMaterial.emission_function"):
+        got = np.array(prim.material.emission_function(Point3D(*at["bp"]), Vector3D(*d), spectrum(), world, None, prim,
+                                                       prim.to_local(), prim.to_root()).samples)
+    scale = float(np.max(np.abs(want))) if want.size else 0.0
+    ctx.close(got, want, "scene-graph", rtol=1e-9, atol=1e-300, scale=scale,
+              info="(BeamMaterial.emission_function vs model.emission with plasma-space arguments from my own matrices; plasma rotation %r, beam rotation %r)"
+              % (sc["pr"], sc["br"]))
+    flows = any(any(c != 0.0 for c in x["v"]) and x["n"] > 0 for x in case["plasma"]["species"])
+    rotated = any(a != 0.0 for a in sc["pr"]) or (sc["node"] is not None and any(a != 0.0 for a in sc["node"][1]))
+    ctx.label("scene:" + kind)
+    if flows and rotated and scale > 0:
+        ctx.label("scene:rotated-plasma-with-flow")
+    ctx.nt(flows and rotated and scale > 0)
+
+
 SUBCHECKS = {
     "cx": Given(strategy_cx, run_cx, quick=2000, thorough=40000),
     "bes": Given(strategy_bes, run_bes, quick=1200, thorough=25000),
+    "scene": Given(strategy_scene, run_scene, quick=600, thorough=12000),
 }
